@@ -213,6 +213,24 @@ class AppSim:
         self.vl.settle()
         return h
 
+    def deliver_then_cancel(self, wire: bytes, h: Expressed):
+        """The face has just handed a packet to the application (its reception task is scheduled but has not run yet) when the
+        caller gives up on h - both in the same loop iteration."""
+        typ = net.outer_type(wire)
+
+        async def _guard():
+            try:
+                await self.app.face.callback(typ, wire)
+            except Exception as e:  # noqa - this is the observation
+                self.receive_errors.append(exc_site(e) + f': {e!r}'[:200])
+
+        def both():
+            asyncio.get_running_loop().create_task(_guard())
+            if h.task is not None and not h.task.done():
+                h.task.cancel()
+        self.vl.call(both)
+        self.vl.settle()
+
     def cancel(self, h: Expressed):
         if h.task is not None and not h.task.done():
             self.vl.call(h.task.cancel)
